@@ -255,7 +255,9 @@ class XsdWildcard(XsdComponent):
             else:
                 return all(ns not in other.not_namespace for ns in self.namespace)
 
-        if self.namespace == other.namespace:
+        if self.namespace == other.namespace and \
+                ('##other' not in self.namespace or
+                 self.target_namespace == other.target_namespace):
             return True
         elif '##any' in other.namespace:
             return True
